@@ -307,6 +307,9 @@ func (w *world) checkExisting(segs []string, e *ufsgen.Entry) {
 	if !vlib.Guard(k, "ResolveToLastNode", 120*time.Second, func() { c, rem, err = w.res.ResolveToLastNode(w.ctx, ip) }) {
 		return
 	}
+	if w.queries <= 60 {
+		k.Logf("  -> cid=%v remainder=%q err=%v", c, rem, err)
+	}
 	switch {
 	case err != nil:
 		k.Fail("existing-error/"+feat, "existing path resolves", e.Cid.String(), fmt.Sprintf("%q: error %v (%T)", segs, err, err))
@@ -448,6 +451,9 @@ func (w *world) checkMissing(dirSegs []string, dir *ufsgen.Entry, name string, t
 	if !vlib.Guard(k, "ResolveToLastNode", 120*time.Second, func() { c, _, err = w.res.ResolveToLastNode(w.ctx, ip) }) {
 		return
 	}
+	if w.queries <= 60 {
+		k.Logf("  -> cid=%v err=%v (%T)", c, err, err)
+	}
 	var nl *resolver.ErrNoLink
 	switch {
 	case err == nil:
@@ -495,6 +501,9 @@ func (w *world) checkBelowLeaf(segs []string, e *ufsgen.Entry, extra int) {
 		k.Logf("resolve below %s %q", e.Kind, full)
 	}
 	c, _, err := w.res.ResolveToLastNode(w.ctx, ip)
+	if w.queries <= 60 {
+		k.Logf("  -> cid=%v err=%v (%T)", c, err, err)
+	}
 	var nl *resolver.ErrNoLink
 	switch {
 	case err == nil && e.Kind == ufsgen.KFile:
